@@ -147,7 +147,7 @@ async fn run_plan(plan: &Plan) -> Result<(Vec<(String, String)>, usize), String>
 pub fn run(seed: u64, tier: &str, shard: usize, nshards: usize) -> ShardResult {
     let mut res = ShardResult::new("c15", seed);
     let rt = tokio::runtime::Builder::new_multi_thread().worker_threads(3).enable_all().build().unwrap();
-    let total = if tier == "thorough" { 6400 } else { 800 };
+    let total = if tier == "thorough" { 6400 } else { 1600 };
     let mut rng = Rng::derive(seed, 0xC15_000 + shard as u64);
     for i in 0..total / nshards.max(1) {
         let mut cfg = HCfg::small(AlgoCfg::default_for(ALGOS[i % 5]));
